@@ -83,6 +83,8 @@ def drive(run, driver, args, timeout=1800, check=True):
     t = time.time()
     p = subprocess.run(cmd, stdout=subprocess.PIPE, stderr=subprocess.PIPE, text=True, timeout=timeout)
     run.timing["drive"] = round(run.timing.get("drive", 0) + time.time() - t, 1)
+    k = "drive:%s%s" % (driver, (":" + str(args[0])) if args and not str(args[0]).startswith("-") else "")
+    run.timing[k] = round(run.timing.get(k, 0) + time.time() - t, 1)
     if check and p.returncode != 0:
         sys.stdout.write(p.stdout[-3000:] + p.stderr[-3000:])
         raise ToolError("driver %s failed with status %d" % (driver, p.returncode))
@@ -283,7 +285,9 @@ def record_violations(run, pid, viols, trace_lines, scen_of_line=None, trace_nam
             run.known_hits[key] = run.known_hits.get(key, 0) + 1
             continue
         new += 1
-        if len(run.violations) >= 5:
+        # one replay per distinct shape (the first occurrence), at most 12 replay files per run
+        have = {v["shape"] for v in run.violations if v.get("replay")}
+        if shape in have or len(have) >= 12:
             run.violations.append({"property": pid, "shape": shape, "line": line, "replay": None})
             continue
         os.makedirs(os.path.join(REPLAYS, pid), exist_ok=True)
@@ -322,7 +326,8 @@ def direct_violation(run, pid, shape, detail, replay_obj):
         key = "%s|%s" % (pid, shape)
         run.known_hits[key] = run.known_hits.get(key, 0) + 1
         return False
-    if len(run.violations) < 5:
+    have = {v["shape"] for v in run.violations if v.get("replay")}
+    if shape not in have and len(have) < 12:
         os.makedirs(os.path.join(REPLAYS, pid), exist_ok=True)
         h = hashlib.sha1(json.dumps(replay_obj, sort_keys=True).encode()).hexdigest()[:10]
         rp = os.path.join(REPLAYS, pid, "%s-%s.json" % (re.sub(r"[^A-Za-z0-9_.@-]", "_", shape[:60]), h))
@@ -368,11 +373,12 @@ def finish(run, level, coverage, assumptions):
         for v in run.violations:
             hist[v.get("shape")] = hist.get(v.get("shape"), 0) + 1
         log("violation shapes: %s" % json.dumps(hist))
-        for v in run.violations[:5]:
+        shown = [v for v in run.violations if v.get("replay")]
+        for v in shown:
             log("VIOLATION property=%s replay=%s" % (run.pid, v.get("replay")))
             log("  shape=%s %s" % (v.get("shape"), v.get("detail", "line %s" % v.get("line"))))
-        if nviol > 5:
-            log("  (+%d further violations)" % (nviol - 5))
+        if nviol > len(shown):
+            log("  (+%d further violations of the shapes above%s)" % (nviol - len(shown), "" if len({v.get("shape") for v in run.violations}) <= len(shown) else " and of further shapes"))
         return 1
     log("OK property=%s tier=%s seed=%d wall=%.1fs" % (run.pid, run.tier, run.seed, wall))
     return 0
